@@ -1,5 +1,5 @@
 (* Statement pins for the codec area. *)
-From FlacCodec Require Import Wf Spec Stream Progress EncChoice Damage Prefix Interrupted Inverse Inverse_frame StreamRd StreamRd_proofs Props_codec.
+From FlacCodec Require Import Wf Spec Stream Progress EncChoice Damage Prefix Interrupted Inverse Inverse_frame StreamRd StreamRd_proofs Enc Enc_proofs Props_codec.
 From FlacBase Require Import Crc.
 Open Scope N_scope.
 Check (C17_parse_inverts_write : forall si f bytes rest,
@@ -46,3 +46,37 @@ Check (C16_syncless_garbage_costs_no_frame : forall g b2 tl x fuel,
   dec_frame None no_check (255 :: b2 :: tl) = Ok x ->
   (length (g ++ 255%N :: b2 :: tl) < fuel)%nat ->
   scan fuel (g ++ 255 :: b2 :: tl) = Ok x).
+
+(* the encoder as written *)
+Check (C02_encoder_frame_valid : forall o L si rate bps number chans f,
+  enc_frame o L rate bps number chans = Some f ->
+  block_ok si bps chans -> si_rate si = rate -> number <= MAX_FRAME_NUMBER ->
+  wf_frame (Some si) f = true /\ spec_frame f = true /\ sem_frame f = chans /\ h_number (f_hdr f) = number /\
+  h_bs (f_hdr f) = block_len chans).
+Check (C01_encoder_frame_lossless : forall o L si rate bps number chans bytes rest chk,
+  enc_frame_bytes o L rate bps number chans = Some bytes ->
+  block_ok si bps chans -> si_rate si = rate -> number <= MAX_FRAME_NUMBER ->
+  (forall h, h_bs h = block_len chans -> chk h = Ok tt) ->
+  exists h, dec_frame (Some si) chk (bytes ++ rest) = Ok (h, chans, rest) /\ h_number h = number /\
+            h_bs h = block_len chans /\
+            spec_decode (Some si) (bytes ++ rest) = Ok (chans, rest)).
+Check (C01_encoder_never_fails : forall o L si rate bps number chans rc,
+  block_ok si bps chans -> code_of_rate rate = Some rc -> number <= MAX_FRAME_NUMBER ->
+  exists bytes, enc_frame_bytes o L rate bps number chans = Some bytes).
+Check (C01_encoder_stream_lossless : forall o L si rate bps blocks k bytes fuel cur acc,
+  enc_blocks o L rate bps k blocks = Some bytes ->
+  Forall (block_ok si bps) blocks -> si_rate si = rate ->
+  k + N.of_nat (length blocks) <= MAX_FRAME_NUMBER + 1 ->
+  short_only_last si blocks ->
+  (si_total si = 0 \/ cur + blocks_samples blocks = si_total si) ->
+  (length bytes < fuel)%nat ->
+  dec_frames fuel si cur bytes acc = (rev acc ++ map interleave_frame blocks, EndEof)).
+Check (C19_encoder_subframe_bound : forall o L bps xs,
+  xs <> [] -> forallb (fits bps) xs = true -> 1 <= bps ->
+  sf_bits bps (enc_sub o L bps xs) <= 8 + N.of_nat (length xs) * bps).
+(* block_ok is what it says *)
+Check (eq_refl : block_ok = fun si bps chans =>
+  (1 <= length chans <= 8)%nat /\ 1 <= bps /\ bps <= 32 /\
+  si_bps si = bps /\ si_channels si = N.of_nat (length chans) /\
+  exists n, 1 <= n /\ n <= 65535 /\ n <= si_max_bs si /\
+    Forall (fun c => N.of_nat (length c) = n /\ forallb (fits bps) c = true) chans).
